@@ -500,6 +500,9 @@ func runC19(p *Prog, r *Report) {
 		}
 		r.End()
 	}
+	if want("C19.6") {
+		ruleTableOptions(p, r, "C19.6")
+	}
 	if want("C19.5") {
 		r.Begin("C19.5", "E-ORD", "Recover continues into the ordinary open path: recoverTable precedes openDB, openDB is on every success path and is not reached after a failed table recovery; openDB replays the journals before it starts background work", 4)
 		if fn := resolveFn(p, r, "leveldb", "Recover"); fn != nil {
